@@ -31,6 +31,9 @@ VENTRY(h_generate)
     vout_int(nr, "nr", 0); vout_int(nt, "ntheta", 0);
     vcheck_eq(g.radius(0), R0, "first-radius=R0", 0);
     vcheck_eq(g.radius(nr - 1), Rmax, "last-radius=Rmax", 0);
+    // "exactly": also as doubles - the end points must be the given values themselves, not something recomputed from them
+    vcheck_bits_eq(g.radius(0), R0, "first-radius-is-R0-bit-for-bit", 0);
+    vcheck_bits_eq(g.radius(nr - 1), Rmax, "last-radius-is-Rmax-bit-for-bit", 0);
     for (int i = 0; i + 1 < nr; i++) vcheck_lt(g.radius(i), g.radius(i + 1), "radii-strictly-increasing", i);
     // angles: uniform, antipodal partners
     vcheck_true(nt >= 2 && nt % 2 == 0, "ntheta-even", 0);
